@@ -122,7 +122,9 @@ def shapes():
             n += 1
             cfg = {"rx": 128, "tx": 512, "ka": ka, "sei": sei, "client_id": b("shc%d" % n), "name": "shapes-conn-%d" % n}
             if n % 2:
-                cfg["auth"] = {"user": b("user%d" % n), "pass": [n, 0, 255]}
+                cfg["auth"] = {"user": b("user%d" % n), "pass": [n, 0, 255] if n % 4 == 1 else []}
+            elif n % 4 == 0:
+                cfg["auth"] = {"user": b(""), "pass": []}
             cfg["will"] = {"topic": b("w/%d" % n), "payload": list(range(n)), "qos": n % 3, "retain": bool(n % 2), "props": []}
             progs.append({"cfg": cfg, "steps": [{"e": "publish", "qos": 0, "topic": b("hello"), "payload": b("x")}]})
     for q in (0, 1, 2):
